@@ -7,8 +7,10 @@ package main
 // Model: lean/EchoModel/C16.lean (mw, staticDir, fsFile).
 
 import (
+	"errors"
 	"fmt"
 	"html"
+	"io"
 	"io/fs"
 	"math/rand"
 	"net/http"
@@ -57,6 +59,11 @@ var c16Layout = []string{
 	"public/dir/sub/", "public/dir/sub/c.txt", "public/empty/", "public/static/", "public/static/d.txt", "public/static/index.html",
 	"public/.../", "public/.../t.txt", "public/.../secret", "public/sp ace.txt", "public/100%.txt", "public/pct%2e.txt",
 	"public/\xc3\xa9.txt", "public/.hidden", "public/x.y.z", "public/dir/public/", "public/dir/public/p.txt",
+	// unusual but legal bytes: characters with a meaning in URLs (query / form encoding, sub-delims,
+	// delimiters), each with a look-alike sibling that a wrong decoding would reach instead
+	"public/a+b.txt", "public/a b.txt", "public/c++/", "public/c++/n.txt", "public/c  /", "public/c  /n.txt", "public/q&a=1;x.txt",
+	"public/semi;v=1.txt", "public/semi", "public/wh?at#.txt", "public/wh", "public/tilde~$!'(),@.txt", "public/star*.txt", "public/colon:x.txt", "public/b\\s.txt", "public/b/", "public/b/bs.txt",
+	"a+b.txt", "a b.txt",
 }
 
 func c16VerifDir() string {
@@ -171,6 +178,94 @@ type c16Case struct {
 	// request
 	Path    lat1 `json:"path"`
 	RawPath lat1 `json:"raw_path"`
+	// round 4
+	Ctor    bool   `json:"ctor,omitempty"`     // Kind 0: middleware.Static(root) instead of StaticWithConfig
+	Skip    int    `json:"skip,omitempty"`     // Kind 0: Skipper 0 nil, 1 answers false, 2 answers true, 3 skips URL paths under /api
+	Fault   int    `json:"fault,omitempty"`    // injected into the files of a custom file system: 1 Stat of files fails, 2 Stat of directories fails, 3 Readdir fails, 4 files are no io.Seeker
+	SubRoot string `json:"sub_root,omitempty"` // dir variants 13..15: the root given to MustSubFS / Static below os.DirFS(W)
+	Disp    lat1   `json:"disp,omitempty"`     // file variants 4, 5: display name of Attachment / Inline
+	Warm    lat1   `json:"warm,omitempty"`     // a request path served first through the same Echo instance
+}
+
+func (c *c16Case) faultsW() string {
+	return wJoin(wBool(c.Fault == 1), wBool(c.Fault == 2), wBool(c.Fault == 3), wBool(c.Fault == 4))
+}
+
+// ---------- file systems whose files fail ----------
+
+var errC16Injected = errors.New("injected failure")
+
+type c16FaultHTTP struct {
+	inner http.FileSystem
+	mode  int
+}
+
+func (f c16FaultHTTP) Open(name string) (http.File, error) {
+	h, err := f.inner.Open(name)
+	if err != nil || f.mode == 0 {
+		return h, err
+	}
+	return c16FaultHTTPFile{h, f.mode}, nil
+}
+
+type c16FaultHTTPFile struct {
+	http.File
+	mode int
+}
+
+func (f c16FaultHTTPFile) Stat() (fs.FileInfo, error) {
+	fi, err := f.File.Stat()
+	if err != nil {
+		return fi, err
+	}
+	if f.mode == 1 && !fi.IsDir() || f.mode == 2 && fi.IsDir() {
+		return nil, errC16Injected
+	}
+	return fi, nil
+}
+
+func (f c16FaultHTTPFile) Readdir(n int) ([]fs.FileInfo, error) {
+	if f.mode == 3 {
+		return nil, errC16Injected
+	}
+	return f.File.Readdir(n)
+}
+
+type c16FaultFS struct {
+	inner fs.FS
+	mode  int
+}
+
+func (f c16FaultFS) Open(name string) (fs.File, error) {
+	h, err := f.inner.Open(name)
+	if err != nil || f.mode == 0 {
+		return h, err
+	}
+	if sk, ok := h.(io.Seeker); ok && f.mode != 4 {
+		return c16FaultSeekFile{c16FaultPlainFile{h, f.mode}, sk}, nil
+	}
+	return c16FaultPlainFile{h, f.mode}, nil // hides Seek (like the files of a zip.Reader)
+}
+
+type c16FaultPlainFile struct {
+	fs.File
+	mode int
+}
+
+func (f c16FaultPlainFile) Stat() (fs.FileInfo, error) {
+	fi, err := f.File.Stat()
+	if err != nil {
+		return fi, err
+	}
+	if f.mode == 1 && !fi.IsDir() || f.mode == 2 && fi.IsDir() {
+		return nil, errC16Injected
+	}
+	return fi, nil
+}
+
+type c16FaultSeekFile struct {
+	c16FaultPlainFile
+	io.Seeker
 }
 
 type c16RecHTTP struct {
@@ -206,6 +301,7 @@ type c16Routing struct {
 	seen                 bool
 	cPath, star, urlPath string
 	nextCalled, nextOK   bool
+	nextOther            bool // next failed with something else than 404 Not Found
 }
 
 func (rt *c16Routing) rec(next echo.HandlerFunc) echo.HandlerFunc {
@@ -221,6 +317,8 @@ func (rt *c16Routing) tail(next echo.HandlerFunc) echo.HandlerFunc {
 		rt.nextCalled = true
 		err := next(c)
 		rt.nextOK = err == nil
+		var he *echo.HTTPError
+		rt.nextOther = err != nil && !(errors.As(err, &he) && he.Code == http.StatusNotFound)
 		return err
 	}
 }
@@ -230,7 +328,9 @@ const c16NextBody = "OK-NEXT"
 func c16OK(c echo.Context) error { return c.String(http.StatusOK, c16NextBody) }
 
 var c16Anchor = regexp.MustCompile(`<a class="(?:dir|file)" href="[^"]*">([^<]*)</a>`)
-var c16Header = regexp.MustCompile(`(?s)<header>\s*(.*?)\s*</header>`)
+// the template puts the name between "<header>\n\t\t" and "\n\t</header>"; a name's own leading or
+// trailing white space belongs to the title
+var c16Header = regexp.MustCompile(`(?s)<header>\n\t\t(.*?)\n\t</header>`)
 
 // c16Outcome renders the response in the model's vocabulary.
 func c16Outcome(kind int, code int, body string, panicked bool) (string, []string) {
@@ -279,6 +379,11 @@ func c16Outcome(kind int, code int, body string, panicked bool) (string, []strin
 var c16OutsideNames = map[string]bool{"public.bak/": true, "publicsecret": true, "s.txt": true, "x.txt": true}
 
 func c16Serve(e *echo.Echo, c *c16Case) (code int, body string, panicked bool, pmsg string) {
+	code, body, _, panicked, pmsg = c16ServeH(e, c)
+	return
+}
+
+func c16ServeH(e *echo.Echo, c *c16Case) (code int, body string, hdr http.Header, panicked bool, pmsg string) {
 	req := httptest.NewRequest(http.MethodGet, "/", nil)
 	req.URL = &url.URL{Path: string(c.Path), RawPath: string(c.RawPath)}
 	req.RequestURI = string(c.Path)
@@ -291,20 +396,25 @@ func c16Serve(e *echo.Echo, c *c16Case) (code int, body string, panicked bool, p
 		}()
 		e.ServeHTTP(rec, req)
 	}()
-	return rec.Code, rec.Body.String(), panicked, pmsg
+	return rec.Code, rec.Body.String(), rec.Header(), panicked, pmsg
 }
 
-// c16Oracle evaluates the property itself on the response.
-func c16Oracle(c *c16Case, mountPrefix string, code int, body string, listed []string, isList bool) string {
-	if strings.Contains(body, "MARK-OUT") {
-		i := strings.Index(body, "MARK-OUT")
-		j := i + 60
-		if j > len(body) {
-			j = len(body)
+var c16Mark = regexp.MustCompile(`MARK-(?:IN|OUT)-\d+:([^\n]*)`)
+
+// c16Oracle evaluates the property itself on the response.  rootRel is the configured root
+// relative to the work directory ("public" unless the case configures a deeper or higher one,
+// "" = the work directory itself); mountPrefix "\x00" = no positive expectation.
+func c16Oracle(c *c16Case, mountPrefix, rootRel string, code int, body string, listed []string, isList bool) string {
+	for _, m := range c16Mark.FindAllStringSubmatch(body, -1) {
+		rel := m[1]
+		if rootRel != "" && rel != rootRel && !strings.HasPrefix(rel, rootRel+"/") {
+			return fmt.Sprintf("response (status %d) contains the content of a file outside the root %q: %q", code, rootRel, c16Short(m[0]))
 		}
-		return fmt.Sprintf("response (status %d) contains the content of a file outside the root: %q", code, strings.TrimSpace(body[i:j]))
 	}
-	if isList {
+	if rootRel == c16RootName && strings.Contains(body, "MARK-OUT") {
+		return fmt.Sprintf("response (status %d) contains the content of a file outside the root: %q", code, c16Short(body[strings.Index(body, "MARK-OUT"):]))
+	}
+	if isList && rootRel != "" {
 		for _, n := range listed {
 			if c16OutsideNames[n] {
 				return fmt.Sprintf("response lists a directory outside the root (entry %q among %q)", n, listed)
@@ -317,7 +427,11 @@ func c16Oracle(c *c16Case, mountPrefix string, code int, body string, listed []s
 		if strings.HasPrefix(p, mountPrefix+"/") {
 			rel := strings.TrimPrefix(p, mountPrefix+"/")
 			if rel != "" && path.Clean(rel) == rel && !strings.HasPrefix(rel, "..") {
-				if e, ok := c16ByRel[c16RootName+"/"+rel]; ok && !e.dir {
+				full := rel
+				if rootRel != "" {
+					full = rootRel + "/" + rel
+				}
+				if e, ok := c16ByRel[full]; ok && !e.dir {
 					if code != http.StatusOK || body != e.body {
 						return fmt.Sprintf("existing file %q requested by its clean path %q: status %d, body %q", rel, p, code, c16Short(body))
 					}
@@ -335,9 +449,11 @@ func c16Short(s string) string {
 	return s
 }
 
-var c16MwMountPrefix = []string{"", "", "/static", "", "/files", "/st"}
+var c16MwMountPrefix = []string{"", "", "/static", "", "/files", "/st", ""}
 
-const c16NumMounts = 6
+// mount 6: two instances of the middleware in one chain (the second one rooted at public/static,
+// inside the first one's root); the model describes the first instance, the second is its `next`
+const c16NumMounts = 7
 
 // middleware file systems: (recording?, rooted at W?, Root option)
 //
@@ -352,46 +468,95 @@ const c16NumMounts = 6
 //	8 default: Root = "./public/" relative, unclean
 //	9 default: Root = "" (-> "."), working directory = the web root, secrets in its parent
 //	10 default: Root = "./", working directory = the web root
+//	11 default: Root = "public/../public", working directory W
+//	12 default: Root = "dir/..", working directory = the web root
+//	13 default: Root = "../public", working directory = the web root (a root reached through the parent)
+//	14 rec(http.Dir(W)), Root "./public/" (custom file system, unclean Root)
+//	15 rec(http.Dir(W)), Root "/public" (custom file system, rooted Root)
 //
-// 1 and 8 run in a child process whose working directory is W, 9 and 10 in one whose working
-// directory is W/public.
-const c16NumMwFS = 11
+// 1, 8 and 11 run in a child process whose working directory is W, 9, 10, 12 and 13 in one whose
+// working directory is W/public.
+const c16NumMwFS = 16
+
+// c16MwDefaultFS reports whether the configuration uses the default file system (no Filesystem
+// given), which is what middleware.Static(root) always does.
+func c16MwDefaultFS(f int) bool {
+	switch f {
+	case 0, 1, 8, 9, 10, 11, 12, 13:
+		return true
+	}
+	return false
+}
+
+var c16MwDefaultRoot = map[int]string{1: c16RootName, 8: "./" + c16RootName + "/", 9: "", 10: "./", 11: c16RootName + "/../" + c16RootName, 12: "dir/..", 13: "../" + c16RootName}
+
+func c16SkipAnswer(c *c16Case) bool {
+	switch c.Skip {
+	case 2:
+		return true
+	case 3:
+		return strings.HasPrefix(string(c.Path), "/api")
+	}
+	return false
+}
 
 func c16RunMw(c *c16Case) Result {
 	var names []string
 	cfg := middleware.StaticConfig{Index: c.Index, HTML5: c.HTML5, Browse: c.Browse, IgnoreBase: c.IgnoreBase}
-	rec, atW, mroot, kind := true, false, ".", 0
+	rec, atW, kind := true, false, 0
+	var cwdSegs []string
+	fault := c.Fault
+	if c16MwDefaultFS(c.FS) || fault == 4 {
+		fault = 0
+	}
+	wrapH := func(f http.FileSystem) http.FileSystem { return c16RecHTTP{c16FaultHTTP{f, fault}, &names} }
 	switch c.FS {
 	case 0:
 		cfg.Root, rec = c16Root, false
-	case 1:
-		cfg.Root, rec = c16RootName, false
-	case 8:
-		cfg.Root, rec = "./"+c16RootName+"/", false
-	case 9:
-		cfg.Root, rec = "", false
-	case 10:
-		cfg.Root, rec = "./", false
+	case 1, 8, 11:
+		cfg.Root, rec = c16MwDefaultRoot[c.FS], false
+	case 9, 10, 12, 13:
+		cfg.Root, rec, cwdSegs = c16MwDefaultRoot[c.FS], false, []string{c16RootName}
 	case 2:
-		cfg.Filesystem = c16RecHTTP{http.Dir(c16Root), &names}
+		cfg.Filesystem = wrapH(http.Dir(c16Root))
 	case 3:
-		cfg.Filesystem, cfg.Root, atW, mroot = c16RecHTTP{http.Dir(c16Work), &names}, c16RootName, true, c16RootName
+		cfg.Filesystem, cfg.Root, atW = wrapH(http.Dir(c16Work)), c16RootName, true
 	case 4:
-		cfg.Filesystem, kind = c16RecHTTP{http.FS(os.DirFS(c16Root)), &names}, 1
+		cfg.Filesystem, kind = wrapH(http.FS(os.DirFS(c16Root))), 1
 	case 5:
-		cfg.Filesystem, cfg.Root, atW, mroot, kind = c16RecHTTP{http.FS(os.DirFS(c16Work)), &names}, c16RootName, true, c16RootName, 1
+		cfg.Filesystem, cfg.Root, atW, kind = wrapH(http.FS(os.DirFS(c16Work))), c16RootName, true, 1
 	case 6:
-		cfg.Filesystem, cfg.Root, atW, mroot, kind = c16RecHTTP{http.FS(c16MapFS), &names}, c16RootName, true, c16RootName, 2
+		cfg.Filesystem, cfg.Root, atW, kind = wrapH(http.FS(c16MapFS)), c16RootName, true, 2
+	case 14:
+		cfg.Filesystem, cfg.Root, atW = wrapH(http.Dir(c16Work)), "./"+c16RootName+"/", true
+	case 15:
+		cfg.Filesystem, cfg.Root, atW = wrapH(http.Dir(c16Work)), "/"+c16RootName, true
 	default:
-		cfg.Filesystem, cfg.Root, kind = c16RecHTTP{http.FS(c16Sub(c16MapFS, c16RootName)), &names}, ".", 1
+		cfg.Filesystem, cfg.Root, kind = wrapH(http.FS(c16Sub(c16MapFS, c16RootName))), ".", 1
 	}
-	index := c.Index
-	if index == "" {
-		index = "index.html"
-	}
+	ctor := c.Ctor && c16MwDefaultFS(c.FS)
+	rawIndex := c.Index
+	skip := false
 	var rt c16Routing
 	e := echo.New()
-	static := middleware.StaticWithConfig(cfg)
+	var static echo.MiddlewareFunc
+	if ctor {
+		// the convenience constructor: DefaultStaticConfig with Root set
+		static = middleware.Static(cfg.Root)
+		rawIndex = "index.html"
+		cfg.HTML5, cfg.Browse, cfg.IgnoreBase = false, false, false
+	} else {
+		switch c.Skip {
+		case 1:
+			cfg.Skipper = func(echo.Context) bool { return false }
+		case 2:
+			cfg.Skipper = func(echo.Context) bool { return true }
+		case 3:
+			cfg.Skipper = func(ec echo.Context) bool { return strings.HasPrefix(ec.Request().URL.Path, "/api") }
+		}
+		skip = c16SkipAnswer(c)
+		static = middleware.StaticWithConfig(cfg)
+	}
 	switch c.Mount {
 	case 0:
 		e.Use(rt.rec, static, rt.tail)
@@ -409,22 +574,48 @@ func c16RunMw(c *c16Case) Result {
 		g.Use(rt.rec, static, rt.tail)
 		g.GET("/ok", c16OK)
 		g.GET("/a.txt", c16OK) // shadowed by the static file of the same name
+	case 6:
+		second := middleware.StaticWithConfig(middleware.StaticConfig{Root: filepath.Join(c16Root, "static"), Browse: c.Browse, HTML5: c.HTML5})
+		e.Use(rt.rec, static, rt.tail, second)
+		e.GET("/api/ok", c16OK)
 	default:
 		// a wildcard route without a slash before the star: c.Path() = "/st*"
 		e.Use(rt.rec, static, rt.tail)
 		e.GET("/st*", c16OK)
 	}
+	warmOracle := ""
+	if c.Warm != "" {
+		// an earlier request through the same Echo instance and the same middleware closure
+		w := *c
+		w.Path, w.RawPath = c.Warm, ""
+		wc, wb, _, _ := c16Serve(e, &w)
+		warmOracle = c16Oracle(&w, "\x00", c16RootName, wc, wb, nil, false)
+		names = nil
+		rt = c16Routing{}
+	}
 	code, body, panicked, pmsg := c16Serve(e, c)
 	out, listed := c16Outcome(0, code, body, panicked)
 	tags := []string{fmt.Sprintf("mw-mount-%d", c.Mount), fmt.Sprintf("mw-fs-%d", c.FS), "out-" + strings.SplitN(out, " ", 2)[0]}
-	if c.IgnoreBase {
+	if c.IgnoreBase && !ctor {
 		tags = append(tags, "ignore-base")
 	}
-	if c.HTML5 {
+	if c.HTML5 && !ctor {
 		tags = append(tags, "html5")
 	}
-	if c.Browse {
+	if c.Browse && !ctor {
 		tags = append(tags, "browse")
+	}
+	if ctor {
+		tags = append(tags, "mw-ctor-Static")
+	}
+	if c.Skip != 0 && !ctor {
+		tags = append(tags, fmt.Sprintf("mw-skipper-%d-%v", c.Skip, skip))
+	}
+	if fault != 0 {
+		tags = append(tags, fmt.Sprintf("fault-%d", fault))
+	}
+	if c.Warm != "" {
+		tags = append(tags, "warm-request")
 	}
 	mp := c16MwMountPrefix[c.Mount]
 	if mp != "" && !strings.HasSuffix(rt.cPath, "*") {
@@ -432,9 +623,16 @@ func c16RunMw(c *c16Case) Result {
 		// (the documented "doubling" that IgnoreBase exists for); no positive expectation
 		mp = "\x00"
 	}
-	oracle := c16Oracle(c, mp, code, body, listed, strings.HasPrefix(out, "list"))
+	if skip || fault != 0 {
+		// a skipped middleware serves nothing; a file system whose files fail is not a working root
+		mp = "\x00"
+	}
+	oracle := c16Oracle(c, mp, c16RootName, code, body, listed, strings.HasPrefix(out, "list"))
+	if oracle == "" && warmOracle != "" {
+		oracle = "first request " + string(c.Warm) + ": " + warmOracle
+	}
 	if panicked && oracle == "" {
-		oracle = "" // a panic is an observation compared with the model, not a containment failure
+		// a panic is an observation compared with the model, not a containment failure
 		tags = append(tags, "panic")
 		_ = pmsg
 	}
@@ -442,12 +640,34 @@ func c16RunMw(c *c16Case) Result {
 		// the middleware chain was not entered (cannot happen for these mounts)
 		return Result{Obs: out, Oracle: oracle, Tags: append(tags, "mw-not-entered")}
 	}
-	rootSegs := []string{c16RootName}
-	if atW {
-		rootSegs = nil
+	if c.Mount == 6 {
+		tags = append(tags, "mw-two-instances")
+		if rt.nextCalled && rt.nextOK {
+			// the first instance handed the request on and the second one (or the router) answered: for
+			// the first instance that is "next answered"; what was served is judged by the oracle above
+			out = "next-ok"
+		}
+		if rt.nextOther {
+			// the second instance failed with its own error (500): the model's `next` only knows
+			// "answered" and "404 Not Found"; oracle only
+			return Result{Obs: out, Oracle: oracle, Tags: append(tags, "mw-second-instance-error"), Nontrivial: c16Nontrivial(c, out)}
+		}
 	}
-	ops := wJoin("0", wBool(rec), c16TreeW, wStrs(rootSegs), wStr(mroot), wStr(index), wBool(c.HTML5), wBool(c.Browse), wBool(c.IgnoreBase),
-		wInt(kind), wStr(rt.cPath), wStr(rt.star), wStr(rt.urlPath), wBool(rt.nextCalled && rt.nextOK))
+	given := []string{c16RootName}
+	if atW {
+		given = nil
+	}
+	rawRoot := cfg.Root
+	if c.FS == 0 {
+		rawRoot = "/W/" + c16RootName // the absolute root, with the run-specific work directory named W
+	}
+	fsOpt := "0"
+	if !c16MwDefaultFS(c.FS) {
+		fsOpt = "1 " + wInt(kind)
+	}
+	ops := wJoin("4", wBool(rec), c16TreeW, wStrs(given), wJoin(wBool(fault == 1), wBool(fault == 2), wBool(fault == 3), "0"), wBool(skip),
+		wStr(rawRoot), wStr(rawIndex), wBool(cfg.HTML5), wBool(cfg.Browse), wBool(cfg.IgnoreBase), fsOpt, wStrs(cwdSegs),
+		wStr(rt.cPath), wStr(rt.star), wStr(rt.urlPath), wBool(rt.nextCalled && rt.nextOK))
 	obs := out
 	if rec {
 		obs = wJoin(wStrs(names), out)
@@ -463,11 +683,39 @@ func c16RunMw(c *c16Case) Result {
 //	6 e.Filesystem = os.DirFS(W); e.Static(prefix, "public")     7 e.StaticFS(prefix, echo.MustSubFS(os.DirFS(W), "public"))
 //	8..11 e.Static(prefix, root) on the DEFAULT filesystem with root ".", "", "./", "dir/.." — a root that cleans
 //	      to "." — and the working directory = the web root (secrets in its parent);  12 g=/g: g.Static(prefix, ".")
+//	13 e.StaticFS(prefix, rec(echo.MustSubFS(os.DirFS(W), SubRoot)))   14 e.Filesystem = os.DirFS(W); e.Static(prefix, SubRoot)
+//	15 g=/g: e.Filesystem = os.DirFS(W); g.Static(prefix, SubRoot)      (13..15: MustSubFS panics for a root that is not fs.ValidPath)
+//	16 e.StaticFS(prefix, rec(failing(os.DirFS(root))))   17 g=/g: g.StaticFS(prefix, rec(failing(fs.Sub(MapFS, "public"))))
+//	18, 19 e.Static(prefix, "../public" / "dir/../../public") on the default filesystem, working directory = the web root
 //
-// 1 runs in a child process with working directory W, 8..12 in one with working directory W/public.
-const c16NumDirVariants = 13
+// 1 runs in a child process with working directory W, 8..12, 18, 19 in one with working directory W/public.
+const c16NumDirVariants = 20
 
-var c16DotRoots = map[int]string{8: ".", 9: "", 10: "./", 11: "dir/..", 12: "."}
+var c16DotRoots = map[int]string{8: ".", 9: "", 10: "./", 11: "dir/..", 12: ".", 18: "../" + c16RootName, 19: "dir/../../" + c16RootName}
+
+var c16SubRoots = []string{"public", "public", "./public", "public/", "public/.", "public/dir/..", "public//", "public/dir", "public/dir/sub/..", "public/static/",
+	".", "", "public/..", "./", "../public", "/public", "..", "public/../..", "./..", "public/../../public", "nope", "public/a.txt", "public/.../", "public/c++"}
+
+// c16SubRootRel is the root a MustSubFS root string configures, relative to the work directory
+// (fs.Sub's documented contract: the cleaned root must be fs.ValidPath).
+func c16SubRootRel(root string) (rel string, ok bool) {
+	c := path.Clean(root)
+	if !fs.ValidPath(c) {
+		return "", false
+	}
+	if c == "." {
+		return "", true
+	}
+	return c, true
+}
+
+func c16FSFault(c *c16Case) int {
+	switch c.Fault {
+	case 1, 2, 4:
+		return c.Fault
+	}
+	return 0
+}
 
 func c16RunDir(c *c16Case) Result {
 	var names []string
@@ -476,40 +724,110 @@ func c16RunDir(c *c16Case) Result {
 	e.Use(rt.rec)
 	rec := false
 	mount := c.Prefix
-	switch c.Variant {
-	case 0:
-		e.Static(c.Prefix, c16Root)
-	case 1:
-		e.Static(c.Prefix, c16RootName)
-	case 2:
-		e.StaticFS(c.Prefix, c16RecFS{os.DirFS(c16Root), &names})
-		rec = true
-	case 3:
-		e.StaticFS(c.Prefix, c16RecFS{c16Sub(c16MapFS, c16RootName), &names})
-		rec = true
-	case 4:
-		e.Group("/g").Static(c.Prefix, c16Root)
-		mount = "/g" + c.Prefix
-	case 5:
-		e.Group("/g").StaticFS(c.Prefix, c16RecFS{os.DirFS(c16Root), &names})
-		rec = true
-		mount = "/g" + c.Prefix
-	case 6:
-		e.Filesystem = os.DirFS(c16Work)
-		e.Static(c.Prefix, c16RootName)
-	case 7:
-		e.StaticFS(c.Prefix, echo.MustSubFS(os.DirFS(c16Work), c16RootName))
-	case 12:
-		e.Group("/g").Static(c.Prefix, c16DotRoots[c.Variant])
-		mount = "/g" + c.Prefix
-	default:
-		e.Static(c.Prefix, c16DotRoots[c.Variant])
+	rootRel, subOpt, fault := c16RootName, "0", 0
+	configPanic := false
+	func() {
+		defer func() {
+			if p := recover(); p != nil {
+				configPanic = true
+			}
+		}()
+		switch c.Variant {
+		case 0:
+			e.Static(c.Prefix, c16Root)
+		case 1:
+			e.Static(c.Prefix, c16RootName)
+		case 2:
+			e.StaticFS(c.Prefix, c16RecFS{os.DirFS(c16Root), &names})
+			rec = true
+		case 3:
+			e.StaticFS(c.Prefix, c16RecFS{c16Sub(c16MapFS, c16RootName), &names})
+			rec = true
+		case 4:
+			e.Group("/g").Static(c.Prefix, c16Root)
+			mount = "/g" + c.Prefix
+		case 5:
+			e.Group("/g").StaticFS(c.Prefix, c16RecFS{os.DirFS(c16Root), &names})
+			rec = true
+			mount = "/g" + c.Prefix
+		case 6:
+			e.Filesystem = os.DirFS(c16Work)
+			e.Static(c.Prefix, c16RootName)
+		case 7:
+			e.StaticFS(c.Prefix, echo.MustSubFS(os.DirFS(c16Work), c16RootName))
+		case 12:
+			e.Group("/g").Static(c.Prefix, c16DotRoots[c.Variant])
+			mount = "/g" + c.Prefix
+		case 13:
+			subOpt, rec = "1 "+wStr(c.SubRoot), true
+			rootRel, _ = c16SubRootRel(c.SubRoot)
+			e.StaticFS(c.Prefix, c16RecFS{echo.MustSubFS(os.DirFS(c16Work), c.SubRoot), &names})
+		case 14:
+			subOpt = "1 " + wStr(c.SubRoot)
+			rootRel, _ = c16SubRootRel(c.SubRoot)
+			e.Filesystem = os.DirFS(c16Work)
+			e.Static(c.Prefix, c.SubRoot)
+		case 15:
+			subOpt = "1 " + wStr(c.SubRoot)
+			rootRel, _ = c16SubRootRel(c.SubRoot)
+			e.Filesystem = os.DirFS(c16Work)
+			mount = "/g" + c.Prefix
+			e.Group("/g").Static(c.Prefix, c.SubRoot)
+		case 16:
+			fault, rec = c16FSFault(c), true
+			e.StaticFS(c.Prefix, c16RecFS{c16FaultFS{os.DirFS(c16Root), fault}, &names})
+		case 17:
+			fault, rec = c16FSFault(c), true
+			mount = "/g" + c.Prefix
+			e.Group("/g").StaticFS(c.Prefix, c16RecFS{c16FaultFS{c16Sub(c16MapFS, c16RootName), fault}, &names})
+		default:
+			e.Static(c.Prefix, c16DotRoots[c.Variant])
+		}
+	}()
+	tags := []string{fmt.Sprintf("dir-variant-%d", c.Variant)}
+	if fault != 0 {
+		tags = append(tags, fmt.Sprintf("fault-%d", fault))
+	}
+	faultsW := wJoin(wBool(fault == 1), wBool(fault == 2), "0", wBool(fault == 4))
+	if configPanic {
+		// MustSubFS refused the root while the route was being registered
+		ops := wJoin("5", wBool(rec), c16TreeW, wStrs(nil), faultsW, subOpt, wStr(""), wStr(""))
+		return Result{Ops: ops, Obs: "config-panic", Tags: append(tags, "out-config-panic"), Nontrivial: true}
 	}
 	e.GET("/api/ok", c16OK)
+	warmOracle := ""
+	if c.Variant >= 13 && c.Variant <= 15 {
+		if _, valid := c16SubRootRel(c.SubRoot); !valid {
+			// fs.Sub's contract: a root that is not fs.ValidPath (rooted, or climbing out of the parent file
+			// system with "..") names nothing inside the parent and must be refused
+			warmOracle = fmt.Sprintf("MustSubFS accepted the root %q, which is not a path inside the parent file system", c.SubRoot)
+		}
+	}
+	if c.Warm != "" {
+		w := *c
+		w.Path, w.RawPath = c.Warm, ""
+		wc, wb, _, _ := c16Serve(e, &w)
+		if warmOracle == "" {
+			warmOracle = c16Oracle(&w, "\x00", rootRel, wc, wb, nil, false)
+			if warmOracle != "" {
+				warmOracle = "first request " + string(c.Warm) + ": " + warmOracle
+			}
+		}
+		names = nil
+		rt = c16Routing{}
+		tags = append(tags, "warm-request")
+	}
 	code, body, panicked, _ := c16Serve(e, c)
 	out, listed := c16Outcome(1, code, body, panicked)
-	tags := []string{fmt.Sprintf("dir-variant-%d", c.Variant), "out-" + strings.SplitN(out, " ", 2)[0]}
-	oracle := c16Oracle(c, strings.TrimSuffix(mount, "/"), code, body, listed, strings.HasPrefix(out, "list"))
+	tags = append(tags, "out-"+strings.SplitN(out, " ", 2)[0])
+	mp := strings.TrimSuffix(mount, "/")
+	if fault == 1 || fault == 2 {
+		mp = "\x00" // a file system whose Stat fails is not a working root
+	}
+	oracle := c16Oracle(c, mp, rootRel, code, body, listed, strings.HasPrefix(out, "list"))
+	if warmOracle != "" {
+		oracle = warmOracle
+	}
 	wantPath := mount + "*"
 	if !strings.HasPrefix(wantPath, "/") {
 		wantPath = "/" + wantPath
@@ -518,12 +836,35 @@ func c16RunDir(c *c16Case) Result {
 		// some other route (or none) matched: routing is not this property's business
 		return Result{Obs: out, Oracle: oracle, Tags: append(tags, "dir-other-route")}
 	}
-	ops := wJoin("1", wBool(rec), c16TreeW, wStrs([]string{c16RootName}), wStr(rt.star), wStr(rt.urlPath))
+	ops := wJoin("5", wBool(rec), c16TreeW, wStrs([]string{c16RootName}), faultsW, subOpt, wStr(rt.star), wStr(rt.urlPath))
 	obs := out
 	if rec {
 		obs = wJoin(wStrs(names), out)
 	}
 	return Result{Ops: ops, Obs: obs, Oracle: oracle, Tags: tags, Nontrivial: c16Nontrivial(c, out)}
+}
+
+// file helper variants
+//
+//	0 e.FileFS("/f", file, rec(os.DirFS(root)))            1 g=/g: g.FileFS("/f", file, rec(fs.Sub(MapFS, "public")))
+//	2 e.Filesystem = rec(os.DirFS(W)); e.File("/f", "public/"+file)
+//	3 GET /f -> c.FileFS(file, rec(failing(os.DirFS(root))))
+//	4 e.Filesystem = rec(failing(os.DirFS(root))); GET /f -> c.Attachment(file, disp)      5 ... c.Inline(file, disp)
+//	6 the DEFAULT Echo.Filesystem (os.Open, any name, relative to the working directory W): e.File("/f", "public/"+file)
+//	7 GET /dl/* -> c.FileFS(c.Param("*"), rec(failing(os.DirFS(root))))  (a download handler: the name comes from the request)
+//	8 e.Filesystem = rec(os.DirFS(W)); g=/g: g.File("/f", "public/"+file)
+//	9 the DEFAULT Echo.Filesystem with an absolute name: GET /f -> c.File(<root>/file)
+const c16NumFileVariants = 10
+
+// Context.FileFS is a method of echo's context type that the Context interface does not list;
+// an application reaches it through an interface assertion.
+func c16CtxFileFS(ec echo.Context, file string, fsys fs.FS) error {
+	if x, ok := ec.(interface {
+		FileFS(string, fs.FS) error
+	}); ok {
+		return x.FileFS(file, fsys)
+	}
+	return echo.StaticFileHandler(file, fsys)(ec)
 }
 
 func c16RunFile(c *c16Case) Result {
@@ -532,30 +873,107 @@ func c16RunFile(c *c16Case) Result {
 	e := echo.New()
 	e.Use(rt.rec)
 	rec := true
+	fault := 0
+	route, mp := "/f", "\x00"
+	name := c.File
+	rootSegs := []string{c16RootName}
+	osOpt, dispOpt := "0", "0"
 	switch c.Variant {
 	case 0:
 		e.FileFS("/f", c.File, c16RecFS{os.DirFS(c16Root), &names})
 	case 1:
 		e.Group("/g").FileFS("/f", c.File, c16RecFS{c16Sub(c16MapFS, c16RootName), &names})
-	default:
-		// Echo.File with the default filesystem: the name is relative to the working directory W
+		route = "/g/f"
+	case 2:
+		// Echo.File on a custom Echo.Filesystem rooted at W
 		e.Filesystem = c16RecFS{os.DirFS(c16Work), &names}
-		e.File("/f", c16RootName+"/"+c.File)
+		name, rootSegs = c16RootName+"/"+c.File, nil
+		e.File("/f", name)
+	case 3:
+		fault = c16FSFault(c)
+		fsys := c16RecFS{c16FaultFS{os.DirFS(c16Root), fault}, &names}
+		e.GET("/f", func(ec echo.Context) error { return c16CtxFileFS(ec, c.File, fsys) })
+	case 4, 5:
+		fault = c16FSFault(c)
+		e.Filesystem = c16RecFS{c16FaultFS{os.DirFS(c16Root), fault}, &names}
+		typ := "attachment"
+		if c.Variant == 5 {
+			typ = "inline"
+			e.GET("/f", func(ec echo.Context) error { return ec.Inline(c.File, string(c.Disp)) })
+		} else {
+			e.GET("/f", func(ec echo.Context) error { return ec.Attachment(c.File, string(c.Disp)) })
+		}
+		dispOpt = wJoin("1", wStr(typ), wStr(string(c.Disp)))
+	case 6:
+		// the default file system opens any name with os.Open, relative to the working directory (= W in the child)
+		rec, rootSegs, osOpt = false, nil, "1 0"
+		name = c16RootName + "/" + c.File
+		e.File("/f", name)
+	case 7:
+		fault = c16FSFault(c)
+		fsys := c16RecFS{c16FaultFS{os.DirFS(c16Root), fault}, &names}
+		e.GET("/dl/*", func(ec echo.Context) error { return c16CtxFileFS(ec, ec.Param("*"), fsys) })
+		route, mp = "/dl/*", "/dl"
+	case 8:
+		e.Filesystem = c16RecFS{os.DirFS(c16Work), &names}
+		name, rootSegs = c16RootName+"/"+c.File, nil
+		e.Group("/g").File("/f", name)
+		route = "/g/f"
+	default:
+		rec, rootSegs, osOpt = false, nil, "1 0"
+		name = "/W/" + c16RootName + "/" + c.File
+		e.GET("/f", func(ec echo.Context) error { return ec.File(c16Root + "/" + c.File) })
 	}
-	code, body, panicked, _ := c16Serve(e, c)
+	code, body, hdr, panicked, _ := c16ServeH(e, c)
 	out, listed := c16Outcome(2, code, body, panicked)
 	tags := []string{fmt.Sprintf("file-variant-%d", c.Variant), "out-" + strings.SplitN(out, " ", 2)[0]}
-	oracle := c16Oracle(c, "\x00", code, body, listed, false)
-	if !rt.seen || !strings.HasSuffix(rt.cPath, "/f") {
+	if fault != 0 {
+		tags = append(tags, fmt.Sprintf("fault-%d", fault))
+	}
+	if fault == 1 || fault == 2 {
+		mp = "\x00"
+	}
+	var oracle string
+	if c.Variant == 6 || c.Variant == 9 {
+		// the developer named a file anywhere below the working directory: the response carries
+		// that file's bytes or no file content at all
+		want := c16ByRel[path.Clean(c16RootName+"/"+c.File)]
+		if want != nil && want.dir {
+			want = c16ByRel[path.Clean(want.rel+"/index.html")] // a directory is answered with its index.html
+		} else if want == nil && path.Clean(c16RootName+"/"+c.File) == "." {
+			want = c16ByRel["index.html"]
+		}
+		if strings.Contains(body, "MARK-") && (want == nil || want.dir || body != want.body) {
+			oracle = fmt.Sprintf("route for the file %q answered with other file content: %q", c16RootName+"/"+c.File, c16Short(body))
+		}
+		if oracle == "" && string(c.Path) == route && want != nil && !want.dir && c.File != "" && path.Clean(c.File) == c.File && (code != http.StatusOK || body != want.body) {
+			oracle = fmt.Sprintf("existing file %q named by the route: status %d, body %q", c.File, code, c16Short(body))
+		}
+	} else {
+		oracle = c16Oracle(c, mp, c16RootName, code, body, listed, false)
+		// a File route naming an existing regular file under the root by its clean path serves its bytes
+		if oracle == "" && c.Variant != 7 && fault != 1 && fault != 2 && string(c.Path) == route && c.RawPath == "" && c.File != "" && path.Clean(c.File) == c.File && !strings.HasPrefix(c.File, "..") {
+			if want, ok := c16ByRel[c16RootName+"/"+c.File]; ok && !want.dir && (code != http.StatusOK || body != want.body) {
+				oracle = fmt.Sprintf("existing file %q named by the route %q: status %d, body %q", c.File, route, code, c16Short(body))
+			}
+		}
+	}
+	if !rt.seen || rt.cPath != route {
 		return Result{Obs: out, Oracle: oracle, Tags: append(tags, "file-other-route")}
 	}
-	var ops string
-	if c.Variant >= 2 {
-		ops = wJoin("2", wBool(rec), c16TreeW, wStrs(nil), wStr(c16RootName+"/"+c.File))
-	} else {
-		ops = wJoin("2", wBool(rec), c16TreeW, wStrs([]string{c16RootName}), wStr(c.File))
+	if c.Variant == 7 {
+		name = rt.star
 	}
-	return Result{Ops: ops, Obs: wJoin(wStrs(names), out), Oracle: oracle, Tags: tags, Nontrivial: strings.HasPrefix(out, "file")}
+	faultsW := wJoin(wBool(fault == 1), wBool(fault == 2), "0", wBool(fault == 4))
+	ops := wJoin("6", wBool(rec), c16TreeW, wStrs(rootSegs), faultsW, osOpt, wStr(name), dispOpt)
+	obs := out
+	if rec {
+		obs = wJoin(wStrs(names), out)
+	}
+	if dispOpt != "0" {
+		obs = wJoin(wStr(hdr.Get(echo.HeaderContentDisposition)), obs)
+	}
+	return Result{Ops: ops, Obs: obs, Oracle: oracle, Tags: tags, Nontrivial: strings.HasPrefix(out, "file") || c.Variant == 7}
 }
 
 func c16Nontrivial(c *c16Case, out string) bool {
@@ -580,12 +998,21 @@ func c16Run(ci any) (res Result) {
 	}
 	switch c.Kind {
 	case 0:
-		return c16RunMw(c)
+		res = c16RunMw(c)
 	case 1:
-		return c16RunDir(c)
+		res = c16RunDir(c)
 	default:
-		return c16RunFile(c)
+		res = c16RunFile(c)
 	}
+	// Files that cannot seek (Fault 4: an fs.FS whose files are no io.ReadSeeker, e.g. zip.Reader) are refused by
+	// fsFile with a 500: http.ServeContent needs a ReadSeeker and echo says so in the error.  The positive clause
+	// of the property ("an existing file is served") is read for file systems whose files can seek (assumption in
+	// obligations/C16.json); the branch itself stays in the model and in the correspondence.
+	if c.Fault == 4 && strings.HasPrefix(res.Oracle, "existing file ") && strings.HasSuffix(res.Obs, "err500") {
+		res.Oracle = ""
+		res.Tags = append(res.Tags, "non-seekable-file-refused")
+	}
+	return res
 }
 
 // ---------- generators ----------
@@ -595,25 +1022,30 @@ var c16Adversarial = []string{"..", ".", "%2e", "%2e%2e", "%2E%2E", ".%2e", "%2e
 	"%2e%2e%2f%2e%2e", "%25%32%65", "..%252f", "%5c..", "%2e%2e%5c", "/", "//"}
 var c16Real = []string{"a.txt", "dir", "sub", "b.txt", "c.txt", "index.html", "static", "d.txt", "empty", "secret.txt", "secret", "public",
 	"public.bak", "publicsecret", "x.txt", "s.txt", "sp ace.txt", "sp%20ace.txt", "100%.txt", "100%25.txt", "pct%2e.txt", "pct%252e.txt",
-	"\xc3\xa9.txt", "%c3%a9.txt", ".hidden", "x.y.z", "t.txt", "p.txt", "nope", "api", "ok", "files"}
+	"\xc3\xa9.txt", "%c3%a9.txt", ".hidden", "x.y.z", "t.txt", "p.txt", "nope", "api", "ok", "files",
+	"a+b.txt", "a b.txt", "a%2Bb.txt", "a%20b.txt", "c++", "c  ", "n.txt", "q&a=1;x.txt", "semi;v=1.txt", "semi", "wh?at#.txt", "wh%3Fat%23.txt", "wh",
+	"tilde~$!'(),@.txt", "star*.txt", "colon:x.txt", "b\\s.txt", "b", "bs.txt"}
 
 // real relative paths (under the root and next to it)
 var c16RealPaths = []string{"a.txt", "index.html", "dir/b.txt", "dir/index.html", "dir/sub/c.txt", "dir", "dir/", "dir/sub", "dir/sub/", "empty", "empty/",
 	"static", "static/", "static/d.txt", "static/index.html", ".../t.txt", ".../secret", "...", "sp ace.txt", "100%.txt", "pct%2e.txt", "\xc3\xa9.txt",
-	".hidden", "x.y.z", "secret.txt", "dir/public/p.txt", "", "nope.txt", "dir/nope"}
-var c16Outside = []string{"../secret", "../secret.txt", "../index.html", "../publicsecret", "../public.bak/x.txt", "../static/s.txt", "../public/a.txt",
+	".hidden", "x.y.z", "secret.txt", "dir/public/p.txt", "", "nope.txt", "dir/nope",
+	"a+b.txt", "a b.txt", "c++/n.txt", "c  /n.txt", "c++", "c++/", "q&a=1;x.txt", "semi;v=1.txt", "wh?at#.txt", "tilde~$!'(),@.txt", "star*.txt", "colon:x.txt", "b\\s.txt", "b/bs.txt"}
+var c16Outside = []string{"../a+b.txt", "../a b.txt", "../secret", "../secret.txt", "../index.html", "../publicsecret", "../public.bak/x.txt", "../static/s.txt", "../public/a.txt",
 	"..", "../", "../public.bak", "../static", "../..", "../../../../../../etc/hostname"}
 
 func c16Pick(r *rand.Rand, l []string) string { return l[r.Intn(len(l))] }
 
 // c16Encode percent-encodes some characters of a relative path in attacker fashion.
 func c16Encode(r *rand.Rand, s string) string {
-	mode := r.Intn(6)
+	mode := r.Intn(7)
 	var b strings.Builder
 	for i := 0; i < len(s); i++ {
 		ch := s[i]
 		enc := false
 		switch mode {
+		case 6: // every byte that is not unreserved (what a careful client sends)
+			enc = !(ch >= 'a' && ch <= 'z' || ch >= 'A' && ch <= 'Z' || ch >= '0' && ch <= '9' || ch == '-' || ch == '.' || ch == '_' || ch == '~' || ch == '/')
 		case 0: // nothing
 		case 1: // dots
 			enc = ch == '.'
@@ -720,6 +1152,22 @@ func c16Lenient(s string) string {
 	return s
 }
 
+var c16Disp = []string{"report.pdf", "a\"b.txt", "back\\slash.txt", "x\"; y=\"z", "", "\xc3\xa9t\xc3\xa9.txt", "\\\"", "\\", "\"", "tab\there", "semi;colon.txt",
+	"a-very-long-display-name-that-is-longer-than-sixty-four-bytes-so-that-any-fixed-buffer-would-show.txt", "plain", "new\nline", "q\"\\\"q"}
+
+var c16Files = []string{"a.txt", "dir", "dir/b.txt", "nope", "../secret.txt", "../secret", "dir/", "dir/../../secret", "/etc/hostname",
+	"empty", ".", "", "dir/sub/c.txt", "./a.txt", "static", "a+b.txt", "a b.txt", "c++/n.txt", "q&a=1;x.txt", "wh?at#.txt", "100%.txt", "pct%2e.txt",
+	"\xc3\xa9.txt", "a.txt/", "dir/index.html", "static/index.html", "../a+b.txt", "dir/../a.txt", "b\\s.txt", "index.html", "../public/a.txt", "..", "dir/sub/../b.txt"}
+
+func c16DirMount(c *c16Case) string {
+	mount := strings.TrimSuffix(c.Prefix, "/")
+	switch c.Variant {
+	case 4, 5, 12, 15, 17:
+		mount = "/g" + mount
+	}
+	return mount
+}
+
 func c16GenCase(r *rand.Rand, big bool) *c16Case {
 	c := &c16Case{}
 	switch r.Intn(10) {
@@ -727,19 +1175,34 @@ func c16GenCase(r *rand.Rand, big bool) *c16Case {
 		c.Kind = 1
 		c.Variant = r.Intn(c16NumDirVariants)
 		c.Prefix = c16Pick(r, []string{"/assets", "/assets", "/", "", "/a/b", "/static", "/assets/"})
-		mount := strings.TrimSuffix(c.Prefix, "/")
-		if c.Variant == 4 || c.Variant == 5 || c.Variant == 12 {
-			mount = "/g" + mount
+		switch c.Variant {
+		case 13, 14, 15:
+			c.SubRoot = c16Pick(r, c16SubRoots)
+		case 16, 17:
+			c.Fault = []int{0, 1, 2, 4, 4}[r.Intn(5)]
 		}
-		c16SetTarget(r, c, c16GenTarget(r, mount, big))
+		c16SetTarget(r, c, c16GenTarget(r, c16DirMount(c), big))
+		if r.Intn(6) == 0 {
+			c.Warm = lat1(c16DirMount(c) + "/" + c16Pick(r, c16RealPaths))
+		}
 	case 3:
 		c.Kind = 2
-		c.Variant = r.Intn(3)
-		c.File = c16Pick(r, []string{"a.txt", "dir", "dir/b.txt", "nope", "../secret.txt", "../secret", "dir/", "dir/../../secret", "/etc/hostname",
-			"empty", ".", "", "dir/sub/c.txt", "./a.txt", "static"})
+		c.Variant = r.Intn(c16NumFileVariants)
+		c.File = c16Pick(r, c16Files)
 		c.Path = "/f"
-		if c.Variant == 1 {
+		switch c.Variant {
+		case 1, 8:
 			c.Path = "/g/f"
+		case 3:
+			c.Fault = []int{0, 0, 1, 2, 4}[r.Intn(5)]
+		case 4, 5:
+			c.Fault = []int{0, 0, 0, 1, 2, 4}[r.Intn(6)]
+			c.Disp = lat1(c16Pick(r, c16Disp))
+		case 7:
+			c.Fault = []int{0, 0, 0, 1, 2, 4}[r.Intn(6)]
+			c.File = ""
+			c16SetTarget(r, c, c16GenTarget(r, "/dl", big))
+			return c
 		}
 		if r.Intn(8) == 0 {
 			c.Path = lat1(c16Pick(r, []string{"/f", "/g/f", "/f/", "/f/../secret.txt", "/f/a.txt"}))
@@ -748,18 +1211,35 @@ func c16GenCase(r *rand.Rand, big bool) *c16Case {
 		c.Kind = 0
 		c.Mount = r.Intn(c16NumMounts)
 		c.FS = r.Intn(c16NumMwFS)
-		c.Index = c16Pick(r, []string{"", "", "index.html", "nope.html", "a.txt", "d.txt"})
+		c.Index = c16Pick(r, []string{"", "", "index.html", "nope.html", "a.txt", "d.txt", "dir/b.txt", "a+b.txt"})
 		c.HTML5 = r.Intn(3) == 0
 		c.Browse = r.Intn(3) == 0
 		c.IgnoreBase = r.Intn(3) == 0
+		if c16MwDefaultFS(c.FS) {
+			c.Ctor = r.Intn(4) == 0
+		} else if r.Intn(8) == 0 {
+			c.Fault = 1 + r.Intn(3)
+		}
+		if r.Intn(5) == 0 {
+			c.Skip = 1 + r.Intn(3)
+		}
+		if r.Intn(6) == 0 {
+			c.Warm = lat1(c16MwMountPrefix[c.Mount] + "/" + c16Pick(r, c16RealPaths))
+		}
 		if r.Intn(8) == 0 {
 			// IgnoreBase focus: the rewrite of the joined name, on file systems where Root is a proper sub-directory
 			c.IgnoreBase = true
-			c.FS = []int{3, 3, 5, 6, 2, 0}[r.Intn(6)]
+			c.Ctor = false
+			c.FS = []int{3, 3, 5, 6, 2, 0, 14, 15}[r.Intn(8)]
 			c.Browse = r.Intn(2) == 0
 			dirs := []string{"", "dir/", ".../", "static/", "dir/sub/", ".../secret/", "nope/", "a.txt/", ".../t.txt/", ".../static/", ".../public.bak/", "..../", ".../.../"}
 			last := []string{".", ".", "static", "files", "%2e", "./", "static/", "..", "public", "static/.", "files/"}
 			c16SetTarget(r, c, c16MwMountPrefix[c.Mount]+"/"+c16Pick(r, dirs)+c16Pick(r, last))
+			return c
+		}
+		if c.Skip == 3 && r.Intn(2) == 0 {
+			// requests the path-prefix Skipper lets through to the next handler
+			c16SetTarget(r, c, "/api/"+c16Pick(r, []string{"ok", "../a.txt", "../../secret", "a.txt", "", "%2e%2e/secret.txt", "../index.html"}))
 			return c
 		}
 		c16SetTarget(r, c, c16GenTarget(r, c16MwMountPrefix[c.Mount], big))
@@ -788,12 +1268,24 @@ func c16Gen(r *rand.Rand, tier string) []any {
 			}
 		}
 		for v := 0; v < c16NumDirVariants; v++ {
-			mount := "/assets"
-			if v == 4 || v == 5 || v == 12 {
-				mount = "/g/assets"
-			}
-			out = append(out, &c16Case{Kind: 1, Variant: v, Prefix: "/assets", Path: lat1(mount + "/" + rel)})
+			dc := &c16Case{Kind: 1, Variant: v, Prefix: "/assets", SubRoot: c16RootName}
+			dc.Path = lat1(c16DirMount(dc) + "/" + rel)
+			out = append(out, dc)
 		}
+		// ... and through the File helpers (the route names the file; the download handler takes it from the request)
+		for _, v := range []int{0, 2, 3, 4, 6, 8, 9} {
+			fc := &c16Case{Kind: 2, Variant: v, File: rel, Path: "/f", Disp: "x.bin"}
+			if v == 8 {
+				fc.Path = "/g/f"
+			}
+			out = append(out, fc)
+		}
+		out = append(out, &c16Case{Kind: 2, Variant: 7, Path: lat1("/dl/" + rel)})
+		// ... and through the convenience constructor and a Skipper that lets the request pass
+		for _, f := range []int{0, 1, 9, 13} {
+			out = append(out, &c16Case{Kind: 0, Mount: 0, FS: f, Ctor: true, Path: lat1("/" + rel)})
+		}
+		out = append(out, &c16Case{Kind: 0, Mount: 2, FS: 3, Skip: 3, Path: lat1("/static/" + rel)})
 	}
 	// a fixed battery first: every outside target, encoded in every fashion, against the
 	// configurations whose file system is rooted above Root and against the plain ones
@@ -811,14 +1303,18 @@ func c16Gen(r *rand.Rand, tier string) []any {
 				}
 			}
 			for v := 0; v < c16NumDirVariants; v++ {
-				mount := "/assets"
-				if v == 4 || v == 5 || v == 12 {
-					mount = "/g/assets"
-				}
-				c := &c16Case{Kind: 1, Variant: v, Prefix: "/assets"}
-				c16SetTarget(r, c, mount+"/"+c16Encode(r, o))
+				c := &c16Case{Kind: 1, Variant: v, Prefix: "/assets", SubRoot: c16RootName}
+				c16SetTarget(r, c, c16DirMount(c)+"/"+c16Encode(r, o))
 				out = append(out, c)
 			}
+			for _, f := range []int{0, 1, 9, 13} {
+				c := &c16Case{Kind: 0, Mount: 0, FS: f, Ctor: true}
+				c16SetTarget(r, c, "/"+c16Encode(r, o))
+				out = append(out, c)
+			}
+			dl := &c16Case{Kind: 2, Variant: 7}
+			c16SetTarget(r, dl, "/dl/"+c16Encode(r, o))
+			out = append(out, dl)
 		}
 	}
 	for i := 0; i < n; i++ {
@@ -851,6 +1347,21 @@ func c16Shrink(ci any) []any {
 	}
 	if c.Index != "" {
 		add(func(d *c16Case) { d.Index = "" })
+	}
+	if c.Warm != "" {
+		add(func(d *c16Case) { d.Warm = "" })
+	}
+	if c.Skip != 0 {
+		add(func(d *c16Case) { d.Skip = 0 })
+	}
+	if c.Fault != 0 {
+		add(func(d *c16Case) { d.Fault = 0 })
+	}
+	if c.Ctor {
+		add(func(d *c16Case) { d.Ctor = false })
+	}
+	if c.Disp != "" {
+		add(func(d *c16Case) { d.Disp = "" })
 	}
 	// drop path segments, then single characters
 	for _, which := range []int{0, 1} {
@@ -890,7 +1401,7 @@ func c16Shrink(ci any) []any {
 func init() {
 	register(&Prop{
 		ID:             "C16",
-		Rule:           "marker tree created at run time under <verif>/.work (root `public` with files, nested directories, a `...` directory, names with space, %, non-ASCII; secrets and look-alike siblings `public.bak`, `publicsecret`, `secret`, `index.html`, `static/` next to the root). Requests: raw targets over the adversarial segment alphabet (.., ., %2e, %2e%2e, %2f, %5c, \\, empty, double encodings, overlong/invalid UTF-8, malformed escapes) mixed with real names, real paths spliced with one adversarial segment, encoded paths to the outside secrets, IgnoreBase shapes (last element = route base or `.`); URL.Path/RawPath derived as net/http would, or set verbatim. Configurations: Static middleware x mount {e.Use, e.Pre, group /static, e.Use + catch-all route, group /files} x file system {default http.Dir with absolute / relative / unclean Root, recording http.Dir(root), http.Dir(parent)+Root, http.FS(os.DirFS), http.FS(os.DirFS(parent))+Root, http.FS(MapFS)+Root, http.FS(fs.Sub(MapFS))} x Index x HTML5 x Browse x IgnoreBase; Echo.Static / StaticFS / Group.Static / StaticFS x {absolute, relative root, os.DirFS, fs.Sub(MapFS), custom Echo.Filesystem, MustSubFS} x prefixes; FileFS / File routes. Every regular file under the root is also requested by its clean path through every mount. non-trivial = request with dot-dot / percent / backslash / double slash, or a response that is a file or a listing; distinct = distinct model op lines",
+		Rule:           "marker tree created at run time under <verif>/.work (root `public` with files, nested directories, a `...` directory, names with space, %, non-ASCII; secrets and look-alike siblings `public.bak`, `publicsecret`, `secret`, `index.html`, `static/` next to the root). Requests: raw targets over the adversarial segment alphabet (.., ., %2e, %2e%2e, %2f, %5c, \\, empty, double encodings, overlong/invalid UTF-8, malformed escapes) mixed with real names, real paths spliced with one adversarial segment, encoded paths to the outside secrets, IgnoreBase shapes (last element = route base or `.`); URL.Path/RawPath derived as net/http would, or set verbatim. Configurations: Static middleware (StaticWithConfig and the convenience constructor Static(root)) x mount {e.Use, e.Pre, group /static, e.Use + catch-all route, group /files, e.Use + /st*, two instances in one chain} x Skipper {nil, false, true, by path prefix} x injected failures of the file objects {Stat of files, Stat of directories, Readdir} x file system {default http.Dir with absolute / relative / unclean / dot-dot Root (working directory W or the web root), recording http.Dir(root), http.Dir(parent)+Root, http.FS(os.DirFS), http.FS(os.DirFS(parent))+Root, http.FS(MapFS)+Root, http.FS(fs.Sub(MapFS))} x Index x HTML5 x Browse x IgnoreBase; Echo.Static / StaticFS / Group.Static / StaticFS x {absolute, relative root, os.DirFS, fs.Sub(MapFS), custom Echo.Filesystem, MustSubFS} x prefixes; FileFS / File routes of Echo and Group, Context.FileFS / Attachment / Inline (Content-Disposition compared), File on the DEFAULT Echo.Filesystem (os.Open: relative to the working directory, absolute), a download handler taking the name from the request; MustSubFS roots (valid, unclean, climbing, rooted: must panic); fs.FS whose files fail Stat or cannot seek; a third request path may be served first through the same Echo (state carried between requests). The tree also holds names with URL-special bytes (+ & = ; ? # * : ~ $ ! ' ( ) , @ backslash, double space) next to look-alike siblings. Every regular file under the root is also requested by its clean path through every mount. non-trivial = request with dot-dot / percent / backslash / double slash, or a response that is a file or a listing; distinct = distinct model op lines",
 		New:            func() any { return &c16Case{} },
 		Gen:            func(r *rand.Rand, tier string) []any { c16Setup(); return c16Gen(r, tier) },
 		Run:            c16Run,
